@@ -1,5 +1,6 @@
 import PhononModel.Lemmas.Roundtrip
-import PhononModel.Lemmas.CommPoints
+import PhononModel.Lemmas.CommPointsClassic
+import PhononModel.Lemmas.Categorize
 import PhononModel.Lemmas.SymmetrizeCompact
 import Mathlib.Tactic.FinCases
 import Mathlib.Tactic.NormNum
@@ -48,30 +49,65 @@ theorem comm_points_classic_integral (S : Mat3) :
     ∀ k ∈ commPointsK S, P3.Dvd (det3 S) (vecMul k S) :=
   commPointsK_integral S
 
-/-- the count for the classic route, full statement (frame completeness of the old-style
-supercell builder is not proved; the oracle checks it for every generated matrix) -/
-def FullStatementCommPointsClassicCard : Prop :=
-  ∀ S : Mat3, 0 < det3 S → (commPointsK S).length = (det3 S).natAbs
+/-- (1a') classic route: **exactly `det S` points** — the surrounding frame of the old-style
+supercell builder contains a representative of every class of `ℤ³/ℤ³S` (`frame_complete`), and the
+classes are counted through the certified Smith normal form. -/
+theorem comm_points_classic_card (S : Mat3) (d : P3) (P Q : Mat3) (h : snfWf S d P Q = true) (hS : 0 < det3 S) :
+    (commPointsK S).length = (det3 S).natAbs :=
+  commPointsK_length S d P Q h hS
 
-/-- sub-case proved: diagonal supercell matrices. -/
-theorem comm_points_classic_card_partial (a b c : Int) (ha : 0 < a) (hb : 0 < b) (hc : 0 < c) :
-    (commPointsK (diag3 (a, b, c))).length = (det3 (diag3 (a, b, c))).natAbs :=
-  commPointsK_length_diag a b c ha hb hc
+/-- both routes return the same set of points modulo 1 (`commInt_eq_comm`) -/
+theorem commInt_eq_comm (S : Mat3) (d : P3) (P Q : Mat3) (h : snfWf S d P Q = true) (hS : 0 < det3 S) (k : P3) :
+    k ∈ commPointsK S ↔ k ∈ commPointsInt d Q :=
+  mem_commPointsK_iff S d P Q h hS k
 
-/-- `categorize_commensurate_points`: what the returned lists are (the `assert` is the guard). -/
-theorem categorize_partition_partial (pts : List P3) (ii ij : List Nat) (h : categorize pts = some (ii, ij)) :
-    ii.length + ij.length * 2 = pts.length ∧
-    (∀ i, i ∈ ii ↔ i < pts.length ∧ partner pts (pts.getD i (0, 0, 0)) = some i) ∧
-    (∀ i, i ∈ ij ↔ i < pts.length ∧ ∃ j, partner pts (pts.getD i (0, 0, 0)) = some j ∧ i < j) :=
-  categorize_spec pts ii ij h
+/-- the frame completeness itself (no certificate needed) -/
+theorem frame_completeness (S : Mat3) (hS : 0 < det3 S) (x : P3) :
+    ∃ lp ∈ box (frame S), ∃ n : P3, lp = x.add (vecMul n S) :=
+  frame_complete S hS x
 
-/-- full statement: on a duplicate-free list closed under negation modulo `N` the assertion
-never fails. -/
-def FullStatementCategorize : Prop :=
-  ∀ pts : List P3, pts.Nodup →
-    (∀ p ∈ pts, ∃ p' ∈ pts, (p.add p').mod (pts.length : Int) = (0, 0, 0)) →
-    (∀ p ∈ pts, p.mod (pts.length : Int) = p) →
-    ∃ ii ij, categorize pts = some (ii, ij)
+/-- the error branch: `det S ≤ 0` is rejected -/
+theorem comm_points_rejects (S : Mat3) (hS : ¬ 0 < det3 S) : commPoints S = none := by
+  simp [commPoints, hS]
+
+/-- (1d) `categorize_commensurate_points` on a duplicate-free list of reduced points closed under
+negation modulo `N`: the `assert` holds (`len(ii) + 2·len(ij) = N`), `ii` are exactly the
+self-paired points (`q = −q + G`), `ij` the first members of the pairs. -/
+theorem categorize_partition (pts : List P3) (h : CatOK pts) :
+    categorize pts = some (catII pts, catIJ pts) ∧
+    (catII pts).length + (catIJ pts).length * 2 = pts.length ∧
+    (∀ i, i ∈ catII pts ↔ i < pts.length ∧ sig pts i = i) ∧
+    (∀ i, i ∈ catIJ pts ↔ i < pts.length ∧ i < sig pts i) ∧
+    (∀ i, i < pts.length → sig pts i < pts.length ∧ sig pts (sig pts i) = i ∧
+      ((pts.getD i (0, 0, 0)).add (pts.getD (sig pts i) (0, 0, 0))).mod (pts.length : Int) = (0, 0, 0)) := by
+  refine ⟨categorize_isSome h, categorize_count h, ?_, ?_, ?_⟩
+  · intro i
+    rw [mem_catII]
+    constructor
+    · rintro ⟨hi, hp⟩
+      rw [partnerIdx_eq h hi] at hp
+      exact ⟨hi, by simpa using hp⟩
+    · rintro ⟨hi, hs⟩
+      exact ⟨hi, by rw [partnerIdx_eq h hi, hs]⟩
+  · intro i
+    rw [mem_catIJ]
+    constructor
+    · rintro ⟨hi, j, hp, hlt⟩
+      rw [partnerIdx_eq h hi] at hp
+      simp only [Option.some.injEq] at hp
+      exact ⟨hi, by omega⟩
+    · rintro ⟨hi, hs⟩
+      exact ⟨hi, sig pts i, partnerIdx_eq h hi, hs⟩
+  · intro i hi
+    refine ⟨sig_lt h hi, sig_invol h hi, ?_⟩
+    have := sig_spec h hi
+    simpa [isNeg] using this
+
+/-- … and the points of `get_commensurate_points_in_integers` satisfy these hypotheses: the
+assertion never fails there. -/
+theorem categorize_comm_points (S : Mat3) (d : P3) (P Q : Mat3) (h : snfWf S d P Q = true) :
+    ∃ ii ij, categorize (commPointsInt d Q) = some (ii, ij) :=
+  ⟨_, _, categorize_isSome (catOK_commPointsInt S d P Q h)⟩
 
 /-! ## character orthogonality and the round trips -/
 
@@ -197,8 +233,12 @@ end PhononModel.C06
 #print axioms PhononModel.C06.comm_points_integral
 #print axioms PhononModel.C06.comm_points_classic_distinct_mod1
 #print axioms PhononModel.C06.comm_points_classic_integral
-#print axioms PhononModel.C06.comm_points_classic_card_partial
-#print axioms PhononModel.C06.categorize_partition_partial
+#print axioms PhononModel.C06.comm_points_classic_card
+#print axioms PhononModel.C06.commInt_eq_comm
+#print axioms PhononModel.C06.frame_completeness
+#print axioms PhononModel.C06.comm_points_rejects
+#print axioms PhononModel.C06.categorize_partition
+#print axioms PhononModel.C06.categorize_comm_points
 #print axioms PhononModel.C06.char_orthogonality
 #print axioms PhononModel.C06.roundtrip_fc
 #print axioms PhononModel.C06.roundtrip_fc_unhermitised
